@@ -236,6 +236,22 @@ def run(ctx):
             ctx.check('GroupedList.contains#post.nan_member_found', 'GroupedList.contains', bool(g.contains(probe)), w, 'contains(NaN) is False')
             g2 = g.sort_by(list(reversed(list(g))))
             ctx.check('GroupedList.get_group#post.nan_member_found', 'GroupedList.get_group', g2.get_group(probe) == leader, dict(w, after='sort_by'), 'after sort_by')
+    # a missing-value LEADER grouped with itself (the library's idiom group_list([..., kept], kept)) is a no-op
+    for nan_ in (float('nan'), np.nan):
+        g = GL(['a', nan_, 'b']); before = (list(map(repr, g)), {repr(k): list(map(repr, v)) for k, v in g.content.items()})
+        w = dict(history=[('init', 'list', "['a', nan, 'b']"), ('group', 'nan', 'nan')])
+        try:
+            g.group(nan_, nan_); after = (list(map(repr, g)), {repr(k): list(map(repr, v)) for k, v in g.content.items()})
+            ctx.check('GroupedList.group#post.noop_when_equal', 'GroupedList.group', before == after, w, 'group(nan, nan) changed the object: %r -> %r' % (before, after))
+        except Exception as e:
+            ctx.check('GroupedList.group#post.noop_when_equal', 'GroupedList.group', False, w, 'group(nan, nan) raised %s' % e)
+        g = GL(['a', nan_, 'b'])
+        try:
+            g.group_list(['a', nan_], nan_)
+            ok = len(g) == 2 and any(isinstance(k, float) and k != k for k in g) and 'a' in [x for vs in g.content.values() for x in vs]
+            ctx.check('GroupedList.group_list#post.state_after_all', 'GroupedList.group_list', ok, dict(history=[('init', 'list', "['a', nan, 'b']"), ('group_list', "['a', nan]", 'nan')]), 'group_list([a, nan], nan) -> %r %r' % (list(g), dict(g.content)))
+        except Exception as e:
+            ctx.check('GroupedList.group_list#post.state_after_all', 'GroupedList.group_list', False, dict(history=[('group_list', "['a', nan]", 'nan')]), 'raised %s' % e)
     if ctx.thorough():
         for n in range(3000):
             init = ctx.rng.choice(inits); g, m = build(init); hist = [('init',) + init]
